@@ -14,5 +14,7 @@ pub mod chain;
 pub mod handler;
 pub mod join;
 pub mod parse;
+#[cfg(feature = "verif_hooks")]
+pub mod verif_hook;
 
 pub use crate::join::{generate_join, Config, JoinInputDefault};
